@@ -70,6 +70,9 @@ type sporkHist struct {
 	role   [4]*types.ImplementedSpork // index by guard number
 	pr     []probe
 	known  map[types.Hash]bool // activation already observed
+	fol    *BareNode           // follower: fed the producer's momentums through ChainBridge.InsertChain
+	fed    uint64              // height up to which the follower has been fed
+	htlcs  []types.Hash        // inserted Htlc.Create sends (executed or refunded), compared on the follower
 }
 
 func (h *sporkHist) send(kp *wallet.KeyPair, to types.Address, zts types.ZenonTokenStandard, amount *big.Int, data []byte) (*nom.AccountBlock, error) {
@@ -278,7 +281,11 @@ func (h *sporkHist) observeSporks() {
 }
 
 func (h *sporkHist) step() {
+	if h.rng.Intn(6) == 0 {
+		h.htlcCall()
+	}
 	h.nd.Momentum()
+	h.syncFollower(false)
 	h.observeSporks()
 	h.checkStore(h.nd.Ch.GetFrontierMomentumStore(), "")
 	h.applyProbes()
@@ -320,7 +327,95 @@ func newSporkHist(rng *rand.Rand, out *Out) *sporkHist {
 	nd := NewNode()
 	h := &sporkHist{nd: nd, rng: rng, out: out, ids: &sporkIds{m: map[types.Hash]int{}}, pr: probes(), known: map[types.Hash]bool{}}
 	h.role = [4]*types.ImplementedSpork{nil, types.AcceleratorSpork, types.HtlcSpork, types.BridgeAndLiquiditySpork}
+	h.fol = OpenBare("")
+	h.fed = 1
 	return h
+}
+
+func (h *sporkHist) close() {
+	h.fol.Destroy()
+	h.nd.Stop()
+}
+
+// what a block evaluated against the store of momentum `height` sees, as a comparable string
+func (h *sporkHist) view(ms store.Momentum) string {
+	var b strings.Builder
+	sp, _ := ms.GetAllDefinedSporks()
+	fmt.Fprintf(&b, "sporks=%v|", sporkTerm(h.ids, sp))
+	for gi := 1; gi <= 3; gi++ {
+		a, err := ms.IsSporkActive(h.role[gi])
+		fmt.Fprintf(&b, "active%d=%v/%v|", gi, a, err)
+	}
+	ctx := vm_context.NewAccountContext(ms, h.nd.Ch.GetFrontierAccountStore(g.User1.Address), nil)
+	for _, p := range h.pr {
+		_, err := embedded.GetEmbeddedMethod(ctx, p.contract, p.data)
+		fmt.Fprintf(&b, "%s=%d|", p.name, lookupCode(err))
+	}
+	return b.String()
+}
+
+// feed the follower (random batch sizes, so batches start and end just below / at / above enforcement heights) and
+// compare, for every height it received, what blocks acknowledging that height see on the two nodes
+func (h *sporkHist) syncFollower(force bool) {
+	top := h.nd.FrontierHeight()
+	if !force && h.rng.Intn(3) != 0 {
+		return
+	}
+	if top <= h.fed {
+		return
+	}
+	ds := WireCopyAll(DetailedRange(h.nd.Ch, h.fed+1, top))
+	if _, err := h.fol.Br.InsertChain(ds); err != nil {
+		h.out.Oracle(false, "follower-accepts-the-producers-chain", M{"from": U64(h.fed + 1), "to": U64(top), "error": err.Error()})
+		h.fed = top
+		return
+	}
+	h.out.Count(fmt.Sprintf("node:follower-batch-size=%d", min(int(top-h.fed), 6)))
+	pf, ff := h.nd.Ch.GetFrontierMomentumStore(), h.fol.Ch.GetFrontierMomentumStore()
+	for x := h.fed + 1; x <= top; x++ {
+		m, _ := pf.GetMomentumByHeight(x)
+		fm, _ := ff.GetMomentumByHeight(x)
+		if m == nil || fm == nil || m.Hash != fm.Hash {
+			h.out.Oracle(false, "follower-accepts-the-producers-chain", M{"height": U64(x)})
+			continue
+		}
+		pv := h.view(h.nd.Ch.GetMomentumStore(m.Identifier()))
+		fv := h.view(h.fol.Ch.GetMomentumStore(m.Identifier()))
+		h.out.Oracle(pv == fv, "follower-sees-the-same-sporks-and-methods-at-every-height", M{"height": U64(x), "producer": pv, "follower": fv})
+	}
+	h.fed = top
+	// executed / refunded gated calls: the same receive block on both nodes
+	for _, sh := range h.htlcs {
+		a, _ := pf.GetBlockWhichReceives(sh)
+		b, _ := ff.GetBlockWhichReceives(sh)
+		if a == nil && b == nil {
+			continue
+		}
+		same := a != nil && b != nil && a.Hash == b.Hash && len(a.DescendantBlocks) == len(b.DescendantBlocks) &&
+			a.MomentumAcknowledged == b.MomentumAcknowledged
+		h.out.Oracle(same, "follower-executes-or-refunds-like-the-producer", M{"send": sh.String()})
+	}
+}
+
+// a gated call that is executed (valid) or refunded (already expired) at receive time
+func (h *sporkHist) htlcCall() {
+	if act, _ := h.nd.Ch.GetFrontierMomentumStore().IsSporkActive(types.HtlcSpork); !act {
+		return
+	}
+	fm, _ := h.nd.Ch.GetFrontierMomentumStore().GetFrontierMomentum()
+	lock := make([]byte, 32)
+	h.rng.Read(lock)
+	exp := fm.Timestamp.Unix() + 3600
+	kind := "valid"
+	if h.rng.Intn(2) == 0 {
+		exp = fm.Timestamp.Unix() - 100 // accepted at send time, refused (refunded) at receive time
+		kind = "expired"
+	}
+	data := definition.ABIHtlc.PackMethodPanic(definition.CreateHtlcMethodName, g.User2.Address, exp, uint8(0), uint8(32), lock)
+	if b, err := h.send(g.User1, types.HtlcContract, types.ZnnTokenStandard, big.NewInt(1000), data); err == nil {
+		h.htlcs = append(h.htlcs, b.Hash)
+		h.out.Count("node:act:htlc-create-" + kind)
+	}
 }
 
 func (h *sporkHist) create(kp *wallet.KeyPair, name string) *sporkRec {
@@ -342,7 +437,7 @@ func (h *sporkHist) create(kp *wallet.KeyPair, name string) *sporkRec {
 
 func nodeHistory(rng *rand.Rand, out *Out) {
 	h := newSporkHist(rng, out)
-	defer h.nd.Stop()
+	defer h.close()
 	// ids that are never created stand for "spork not defined on this chain"
 	var none [3]types.Hash
 	for i := range none {
@@ -429,6 +524,21 @@ func nodeHistory(rng *rand.Rand, out *Out) {
 	if act, _ := h.nd.Ch.GetFrontierMomentumStore().IsSporkActive(types.HtlcSpork); act {
 		h.htlcRoundTrip()
 	}
+	for i := 0; i < 3; i++ {
+		h.step()
+	}
+	h.syncFollower(true)
+	// the refund path really occurred and really differs from the executed one
+	pf := h.nd.Ch.GetFrontierMomentumStore()
+	for _, sh := range h.htlcs {
+		if rb, _ := pf.GetBlockWhichReceives(sh); rb != nil {
+			if len(rb.DescendantBlocks) > 0 {
+				out.Count("node:htlc-receive-refunded")
+			} else {
+				out.Count("node:htlc-receive-executed")
+			}
+		}
+	}
 }
 
 func min(a, b int) int {
@@ -468,7 +578,7 @@ func (h *sporkHist) htlcRoundTrip() {
 func f12Repro(out *Out) {
 	rng := rand.New(rand.NewSource(17))
 	h := newSporkHist(rng, out)
-	defer h.nd.Stop()
+	defer h.close()
 	var none [3]types.Hash
 	for i := range none {
 		rng.Read(none[i][:])
@@ -484,6 +594,7 @@ func f12Repro(out *Out) {
 		h.step()
 	}
 	h.htlcRoundTrip()
+	h.syncFollower(true)
 	out.Count("node:repro:f12-htlc-spork-only")
 }
 
